@@ -1,5 +1,6 @@
 import TF.Proofs.MmrMember
 import TF.Proofs.MmrNodeIndex
+import TF.Proofs.MmrUpdMutate
 /-!
 # C05 — MMR membership proofs stay exact through every history; verification exact
 
@@ -148,12 +149,23 @@ def batch_update_from_append_spec_statement : Prop :=
     batchUpdateFromAppend H (lis.map (authPathOf H g n)) lis n (g n) (peaks H n g)
       = some (lis.map (authPathOf H g (n + 1)), changedSlots H g g n (n + 1) lis)
 
-/-- `update_from_leaf_mutation`: the from-scratch path of the changed leaf list; `false` only if nothing changed -/
-def update_from_leaf_mutation_spec_statement : Prop :=
+/-- **update_from_leaf_mutation_spec**: `update_from_leaf_mutation`, given the from-scratch path of leaf `i` and the
+    mutation of leaf `j` (with its from-scratch path), never panics and leaves exactly the from-scratch path of `i` in
+    the changed leaf list; it returns `false` only if nothing changed.  (It returns `true` whenever the mutated leaf
+    lies under one of the path's sibling nodes, also when the recomputed digest equals the stored one.) -/
+theorem update_from_leaf_mutation_spec :
   ∀ (D : Type) [DecidableEq D] (H : D → D → D) (g : Nat → D) (n i j : Nat) (d : D), i < n → j < n → n < 2 ^ 63 →
     ∃ b, updateFromLeafMutation H (authPathOf H g n i) i ⟨j, d, authPathOf H g n j⟩
         = some (authPathOf H (Function.update g j d) n i, b) ∧
-      (b = false → authPathOf H (Function.update g j d) n i = authPathOf H g n i)
+      (b = false → authPathOf H (Function.update g j d) n i = authPathOf H g n i) := by
+  intro D _ H g n i j d hi hj hn
+  exact updateFromLeafMutation_spec H g n i j d hi hj hn
+example : (0 : Nat) < 7 ∧ (3 : Nat) < 7 ∧ (7 : Nat) < 2 ^ 63 := by decide
+/-- 7 leafs `1 … 7`, leaf 3 becomes 100: the proof `[2, 11]` of leaf 0 becomes `[2, 203]`; a mutation in another tree
+    leaves it alone -/
+example : updateFromLeafMutation (fun a b : Nat => a + 2 * b) [2, 11] 0 ⟨3, 100, [3, 5]⟩ = some ([2, 203], true) ∧
+    updateFromLeafMutation (fun a b : Nat => a + 2 * b) [2, 11] 0 ⟨5, 100, [5]⟩ = some ([2, 11], false) := by
+  decide +kernel
 
 /-- `batch_update_from_leaf_mutation`: reports exactly the changed proofs -/
 def batch_update_from_leaf_mutation_spec_statement : Prop :=
@@ -229,8 +241,9 @@ theorem update_from_leaf_mutation_spec_partial (g g' : Nat → D) (n i j : Nat) 
     the specifications of `update_from_append`, `update_from_leaf_mutation` and `batch_mutate_leaf_and_update_mps`, every
     valid history from the empty range keeps the accumulator and every tracked proof equal to the from-scratch ones. -/
 theorem history_preserves_proofs_partial
-    (hA : update_from_append_spec_statement) (hM : update_from_leaf_mutation_spec_statement)
+    (hA : update_from_append_spec_statement)
     (hB : batch_mutate_leaf_and_update_mps_spec_statement) : history_preserves_proofs_statement := by
+  have hM := update_from_leaf_mutation_spec
   intro D _ H g0 ops
   -- generalise the start: any honest state below 2^63 leafs
   suffices hgen : ∀ (ops : List (HOp D)) (s : Nat × (Nat → D)) (st : HState D), s.1 < 2 ^ 63 → Honest H st s →
